@@ -44,6 +44,21 @@ PoolMore == <<
 >>
 PoolMini == << x, K4, K4f, S1, S1f, N("Product", << S1, S1f >>), CSE0(S1),
               N("Sum", << CSE0(S1), CSE0(S1), y >>) >>
+\* round 4: leaves of classes the stock mappers know only through a BASE class (they reach
+\* map_variable through the class-hierarchy fallback, C05_Fresh!DispatchPath = "mro"), next
+\* to the plain Variable of the same name, repeated below nodes, and under a CSE wrapper
+VC(name, cls) == [t |-> "Var", name |-> name, cls |-> cls]
+xs == VC("x", "sub")   \* a user subclass of Variable whose own mapper_method no mapper defines
+xm == VC("x", "mv")    \* geometric_algebra.primitives.MultiVectorVariable
+ys == VC("y", "sub")
+SM4 == N("Sum", << xm, K4 >>)
+PoolFb == <<
+    xs, xm,
+    N("Sum", << x, xs, xm >>),                            \* one name, three leaf classes
+    N("Product", << SM4, B("Power", SM4, KI(2)) >>),      \* the same fallback leaf below two nodes
+    Call(ff, << ys, N("Product", << SM4, ys >>) >>),
+    CSE0(N("Sum", << xs, K1 >>))
+>>
 PoolConsts == << K4, K4f, K1, KT, K(FltV(1, 1)), K0, K(BoolV(FALSE)) >>
 
 ArgCore == << NoArgs, Args(<< IntV(1) >>, << >>), Args(<< >>, << [name |-> "k", v |-> IntV(1)] >>) >>
